@@ -71,6 +71,10 @@ type params struct {
 	DelayV    int    `json:"video_path_delay_ms"`
 	H264Multi bool   `json:"h264_multi_nal_keyframes,omitempty"`
 	VeryLong  bool   `json:"very_long_hold,omitempty"`
+	// which tracks (v, a, av) start a little below 2^32, so that the timestamp
+	// wraps after the track's sender report and before or at the first keyframe
+	WrapAtStart string `json:"wrap_at_start,omitempty"`
+	Early       bool   `json:"early_codec_session,omitempty"`
 }
 
 var classes = []string{"inorder", "reorder", "dup", "reorder-dup", "gap-cache", "gap-cache-reorder-dup", "gap-lost", "gap-mixed", "late-start"}
@@ -84,6 +88,11 @@ const (
 	// the recorder's muxer (mkvcore's multi track block sorter) starts writing a
 	// track's oldest blocks once it holds more than videoMaxLate+16 of them
 	sorterWindow = 272
+	// wrap-at-start sessions (wrapStartBase + k) and the H264/VP9 sessions that
+	// every tier runs before anything else (earlyBase + k) have index spaces of
+	// their own for the same reason
+	wrapStartBase = uint64(1) << 21
+	earlyBase     = uint64(1) << 22
 )
 
 // genLongHold: audio next to LOW RATE video (3-6 frames/s of 1-2 packets, 10-40
@@ -134,17 +143,76 @@ func genLongHold(r *rand.Rand, idx uint64, thorough bool) params {
 	return p
 }
 
+// wrapStartClasses: every other wrap-at-start session is delivered in order,
+// the others go through the delivery classes one by one.
+var wrapStartClasses = []string{"inorder", "reorder", "inorder", "dup", "inorder", "gap-cache", "inorder", "reorder-dup", "inorder", "gap-cache-reorder-dup", "inorder", "late-start", "inorder", "gap-lost", "inorder", "gap-mixed"}
+
+// genWrapStart: audio next to video, one sender report per track, both received
+// before the first packet of either track (the recorder knows the mapping to
+// the sender's clock from the start, and no sender report can move an origin
+// later on), and the timestamps of the video track, of the audio track or of
+// both start a little below 2^32: the wrap falls after the track's sender
+// report and before or at the packet that fixes its origin (buildVideo,
+// buildAudio).  Which track wraps, the delivery class and the codec are a
+// function of k alone.
+func genWrapStart(r *rand.Rand, idx uint64, thorough bool) params {
+	k := idx - wrapStartBase
+	video := "vp8"
+	if thorough {
+		video = []string{"vp8", "vp9", "h264", "vp8", "vp9"}[(k/48)%5]
+	}
+	p := genRegular(r, idx, false, wrapStartClasses[k%uint64(len(wrapStartClasses))], video+"+a")
+	p.Thorough = thorough
+	p.WrapAtStart = []string{"v", "a", "av"}[k%3]
+	p.SRV, p.SRA = "before", "before"
+	p.TsWrapV, p.TsWrapA = false, false
+	p.FirstKF = 0
+	if r.IntN(2) == 0 {
+		p.FirstKF = 1 + r.IntN(5)
+	}
+	// the recorder knows both clocks: audio may start before or after the video
+	p.AOffMs = r.IntN(601) - 300
+	return p
+}
+
+// genEarly: the H264 and VP9 sessions that every tier runs one after the other
+// before any other session starts (what a recording leaves behind in the
+// process is then seen by everything that follows).  Codec, audio and delivery
+// class are a function of k alone.
+func genEarly(r *rand.Rand, idx uint64, thorough bool) params {
+	k := idx - earlyBase
+	set := []string{"h264+a", "vp9+a", "h264", "h264+a", "vp9", "h264+a"}[k%6]
+	class := []string{"inorder", "reorder", "gap-cache", "inorder", "dup", "gap-mixed"}[k%6]
+	p := genRegular(r, idx, false, class, set)
+	p.Thorough = thorough
+	p.Early = true
+	if k%6 == 3 {
+		p.H264Multi = true // keyframes as browsers send them: STAP-A{SPS,PPS} + IDR
+	}
+	return p
+}
+
 func genParams(r *rand.Rand, idx uint64, thorough bool) params {
-	if idx >= longHoldBase {
+	switch {
+	case idx >= earlyBase:
+		return genEarly(r, idx, thorough)
+	case idx >= wrapStartBase:
+		return genWrapStart(r, idx, thorough)
+	case idx >= longHoldBase:
 		return genLongHold(r, idx, thorough)
 	}
-	p := params{Session: idx, Thorough: thorough}
-	p.Class = classes[idx%uint64(len(classes))]
 	sets := []string{"vp8+a", "vp8+a", "vp8+a", "vp8", "a", "vp8+a", "vp8+a"}
 	if thorough {
 		sets = []string{"vp8+a", "vp8+a", "vp8+a", "vp8", "a", "vp8+a", "vp9+a", "h264+a", "vp9", "h264", "vp9+a"}
 	}
 	set := sets[(idx/uint64(len(classes)))%uint64(len(sets))]
+	return genRegular(r, idx, thorough, classes[idx%uint64(len(classes))], set)
+}
+
+// genRegular draws everything but the delivery class and the codec set.
+func genRegular(r *rand.Rand, idx uint64, thorough bool, class, set string) params {
+	p := params{Session: idx, Thorough: thorough}
+	p.Class = class
 	p.Audio = strings.HasSuffix(set, "a")
 	p.Video = strings.TrimSuffix(strings.TrimSuffix(set, "a"), "+")
 	p.NV = 20 + r.IntN(41)
@@ -222,7 +290,11 @@ func genParams(r *rand.Rand, idx uint64, thorough bool) params {
 }
 
 func (p params) shape() string {
-	return fmt.Sprintf("%s a%v %s srv=%s sra=%s sw%v%v tw%v%v ppf=%s", p.Video, p.Audio, p.Class, p.SRV, p.SRA, p.SeqWrapV, p.SeqWrapA, p.TsWrapV, p.TsWrapA, p.PPF)
+	sh := fmt.Sprintf("%s a%v %s srv=%s sra=%s sw%v%v tw%v%v ppf=%s", p.Video, p.Audio, p.Class, p.SRV, p.SRA, p.SeqWrapV, p.SeqWrapA, p.TsWrapV, p.TsWrapA, p.PPF)
+	if p.WrapAtStart != "" {
+		sh += " wrap-at-start=" + p.WrapAtStart
+	}
+	return sh
 }
 
 // ---------------------------------------------------------------------------
@@ -284,6 +356,8 @@ type track struct {
 	maxGapRun  int
 	firstEvent int // packet index of the first delivery event
 	srEvents   []int64
+	srRTP      []uint32 // RTP timestamps of the sender reports, in order
+	wrapAt     float64  // wrap-at-start: capture instant at which the timestamp wraps (0: not forced)
 }
 
 func (t *track) AddLocal(d conn.DownTrack) error {
@@ -492,6 +566,22 @@ func buildVideo(s *session, r *rand.Rand) *track {
 			capMs += interval * float64(1+r.IntN(3)) // the encoder skipped frames
 		}
 	}
+	if strings.Contains(p.WrapAtStart, "v") {
+		// The timestamp wraps at or shortly before the first keyframe: exactly
+		// there (the keyframe's timestamp is 0..89), between the first frame and
+		// the first keyframe, or up to 50 ms before the first packet.  The
+		// track's sender report precedes the wrap (buildSession).
+		kfCap := plan[p.FirstKF].cap
+		back := int64(r.IntN(90))
+		switch lead := kfCap - plan[0].cap; r.IntN(3) {
+		case 1:
+			back += int64(90 * lead * r.Float64())
+		case 2:
+			back += int64(90 * (lead + 1 + float64(r.IntN(50))))
+		}
+		t.ts0 = uint32(back) - uint32(int64(math.Round(kfCap*90)))
+		t.wrapAt = kfCap - float64(back)/90
+	}
 	if p.SeqWrapV {
 		seq = uint16(65536 - 1 - r.IntN(total))
 	}
@@ -684,6 +774,27 @@ func buildAudio(s *session, r *rand.Rand, fromMs, toMs float64) *track {
 	t.ts0 = r.Uint32()
 	if p.TsWrapA {
 		t.ts0 = uint32(0) - uint32(48*(fromMs+float64(20*r.IntN(n))))
+	}
+	if strings.Contains(p.WrapAtStart, "a") {
+		// The audio timestamp wraps up to 50 ms before the first audio packet,
+		// exactly at it (its timestamp is 0..47), or between it and the oldest
+		// audio packet that can still reach the recorder after the first
+		// keyframe's first packet (the audio origin is fixed by an audio packet
+		// that arrives after the video's: path delays and 400 ms of reordering
+		// at most, see planTrack): in any case after the track's sender report
+		// (buildSession) and before the audio packet that fixes the origin.
+		back := int64(r.IntN(48))
+		switch r.IntN(3) {
+		case 1:
+			hi := s.video.frames[p.FirstKF].capMs + float64(p.DelayV-p.DelayA) - 420
+			if hi > fromMs {
+				back -= int64(48 * (hi - fromMs) * r.Float64())
+			}
+		case 2:
+			back += int64(48 * (1 + r.IntN(50)))
+		}
+		t.ts0 = uint32(back) - uint32(int64(math.Round(fromMs*48)))
+		t.wrapAt = fromMs - float64(back)/48
 	}
 	seq := uint16(r.UintN(60000))
 	if p.SeqWrapA {
@@ -1048,7 +1159,9 @@ func buildSession(run *vk.Run, p params, noSR bool) *session {
 		} else {
 			evs = planTrack(t, r, p.Class, delay)
 		}
-		evs = addSR(t, evs, r, when)
+		if p.WrapAtStart == "" {
+			evs = addSR(t, evs, r, when)
+		}
 		all = append(all, evs...)
 		t.delivered = make([]bool, len(t.pkts))
 		t.writing = -1
@@ -1056,6 +1169,23 @@ func buildSession(run *vk.Run, p params, noSR bool) *session {
 		t.firstPush = make([]int64, len(t.pkts))
 		for i := range t.firstPush {
 			t.firstPush[i] = -1
+		}
+	}
+	if p.WrapAtStart != "" {
+		// one sender report per track, both before the first packet of either
+		// track reaches the recorder and (the report describes an instant 3 ms
+		// before it is received, see drive) before the forced timestamp wraps
+		first := math.Inf(1)
+		for _, e := range all {
+			first = math.Min(first, e.arr)
+		}
+		for _, t := range s.tracks {
+			if t.wrapAt > 0 {
+				first = math.Min(first, t.wrapAt)
+			}
+		}
+		for _, t := range s.tracks {
+			all = append(all, event{arr: first - 5 - float64(r.IntN(2000)), trk: t.id, pkt: -1})
 		}
 	}
 	if noSR {
@@ -1130,6 +1260,7 @@ func (s *session) drive() error {
 			at := e.arr - 3
 			t.local.SetTimeOffset(ntpAt(at), t.rtpAt(at))
 			t.srEvents = append(t.srEvents, int64(i))
+			t.srRTP = append(t.srRTP, t.rtpAt(at))
 			continue
 		}
 		raw := t.pkts[e.pkt].raw
